@@ -104,6 +104,10 @@ def extra_kinds():
 
 def classify(folder, path):
     """'lock' | 'cachelock' | 'cache' | 'data' | None (outside the storage folder)"""
+    if path.startswith(folder + "-cache/") or path == folder + "-cache":
+        # the separate cache folder of the "cachefolder" configurations (common.App "@tmp"): disposable cache area; a lock file
+        # there is a cache lock, never the storage lock - the storage lock is the one file <filesystem_folder>/.Radicale.lock
+        return "cachelock" if path.rsplit("/", 1)[-1].startswith(".Radicale.lock") else "cache"
     if not path.startswith(folder + "/") and path != folder:
         return None
     rel = path[len(folder):].strip("/")
@@ -355,10 +359,21 @@ def run(ctx):
                   ("mtime", {"storage": {"use_mtime_and_size_for_item_cache": "True"}})]
     kinds = dict(scenarios.kinds())
     kinds.update(extra_kinds())
+    # a separate cache folder: the lock that counts is still the one file in the storage folder (a second server or the documented
+    # `flock <storage>/.Radicale.lock` of an administrator shares only that one); quick: a cross-section of the request types
+    cf = ("cachefolder+hook", {"storage": {"hook": hook, "filesystem_cache_folder": "@tmp", "use_cache_subfolder_for_item": "True",
+                                           "use_cache_subfolder_for_history": "True", "use_cache_subfolder_for_synctoken": "True"}})
+    cf_kinds = set(kinds) if ctx.tier == "thorough" else {"put_new", "delete_item", "move_across", "proppatch", "mkcalendar", "first_login",
+                                                           "get_item", "propfind_depth1", "report_sync", "report_multiget"} & set(kinds)
+    if ctx.tier != "thorough" and len(cf_kinds) < 8:
+        cf_kinds = set(list(kinds)[::6])
     try:
         for conf_name, conf in confs:
             for name, kind in kinds.items():
                 run_kind(ctx, rec, name, kind, conf_name, conf, hooklog)
+        for name, kind in kinds.items():
+            if name in cf_kinds:
+                run_kind(ctx, rec, name, kind, cf[0], cf[1], hooklog)
         overlapping_requests(ctx, rec)
     finally:
         rec.close()
